@@ -960,28 +960,19 @@ fn value_conversions(cx: &mut Ctx) {
 
 fn lex_string_order(cx: &mut Ctx) {
     let rule = "C06.S1";
-    cx.rule(rule, "lex_string: the backslash branch (keep `\\` and the following character, continue) comes before both the end-of-line test and the closing-quote test, so an escaped quote or line break never terminates the literal; a triple quote is recognised by exactly two further quote characters, both at the opening and at the closing; content characters are pushed unchanged");
+    cx.rule(rule, "lex_string: the backslash branch (keep `\\` and the following character, continue) comes before both the end-of-line test and the closing-quote test, so an escaped quote or line break never terminates the literal; a triple quote is recognised by exactly two further quote characters, both at the opening and at the closing (both decisions are evaluated over triple_quoted x whether two more quotes follow, following a private helper one level); content characters are pushed unchanged");
     cx.floor(rule, 4);
     let Some(lx) = lr::load_lexer(cx, rule) else { return };
     let Some(f) = lr::lexer_method(&lx, "lex_string") else { return cx.anchor_missing(rule, "lex_string") };
     let t = sm::tsx(&f.block);
     let p_bs = t.find("matchc{'\\\\'=>matchself.next_char(){Some(next_c)=>{string_content.push('\\\\');string_content.push(next_c);continue;},_=>{}},_=>{}}");
     let p_eol = t.find("ifc=='\\n'&&!triple_quoted{");
-    let p_q = t.find("ifc==quote_char{");
+    let p_q = t.find("ifc==quote_char");
     match (p_bs, p_eol, p_q) {
         (Some(a), Some(b), Some(c)) if a < b && b < c => cx.ok(rule, "order in the scan loop: backslash pair, end-of-line test, closing-quote test"),
         _ => cx.fail(rule, &format!("{}/order", rule), &lx.loc(f), "the backslash branch does not precede the end-of-line and closing-quote tests (an escaped quote or line break could terminate the literal)"),
     }
-    if t.contains("lettriple_quoted=ifself.window[0]==Some(quote_char)&&self.window[1]==Some(quote_char){self.next_char();self.next_char();true}else{false};") {
-        cx.ok(rule, "opening: two further quote characters => triple quoted (both consumed)");
-    } else {
-        cx.fail(rule, &format!("{}/triple-open", rule), &lx.loc(f), "triple-quote detection at the opening is not `window[..2] == [Some(quote_char); 2]` with two consumptions");
-    }
-    if t.contains("iftriple_quoted{ifself.window[0]==Some(quote_char)&&self.window[1]==Some(quote_char){self.next_char();self.next_char();break;}}else{break;}") {
-        cx.ok(rule, "closing: a quote ends a plain literal; a triple-quoted one needs two more quote characters");
-    } else {
-        cx.fail(rule, &format!("{}/triple-close", rule), &lx.loc(f), "the closing-quote logic is not `triple ? (two more quotes => consume both, break) : break`");
-    }
+    quote_logic(cx, rule, &lx, f);
     if t.contains("}string_content.push(c);},_=>") && t.matches("string_content.push(").count() == 3 {
         cx.ok(rule, "every other character is pushed unchanged (3 push sites in all)");
     } else {
@@ -1070,6 +1061,211 @@ fn bytes_truncation(cx: &mut Ctx) {
         }
     } else {
         cx.fail(rule, &format!("{}/no-cast", rule), &s.loc(m), "parse_bytes has no truncating `as u8` conversion of the decoded characters");
+    }
+}
+
+// ---- the opening / closing quote decisions of lex_string, evaluated over (triple_quoted, two more quotes follow)
+
+#[derive(Default)]
+struct QOut {
+    consumed: usize,
+    broke: bool,
+    unknown: Option<String>,
+    locals: BTreeMap<String, bool>,
+}
+
+fn q_bool(e: &syn::Expr, triple: Option<bool>, pair: bool, lx: &Src, out: &mut QOut, depth: usize) -> Option<bool> {
+    let e = sm::peel(e);
+    let t = sm::tsc(e);
+    match e {
+        syn::Expr::Unary(u) if matches!(u.op, syn::UnOp::Not(_)) => q_bool(&u.expr, triple, pair, lx, out, depth).map(|b| !b),
+        syn::Expr::Binary(b) if matches!(b.op, syn::BinOp::And(_)) => match q_bool(&b.left, triple, pair, lx, out, depth)? {
+            false => Some(false),
+            true => q_bool(&b.right, triple, pair, lx, out, depth),
+        },
+        syn::Expr::Binary(b) if matches!(b.op, syn::BinOp::Or(_)) => match q_bool(&b.left, triple, pair, lx, out, depth)? {
+            true => Some(true),
+            false => q_bool(&b.right, triple, pair, lx, out, depth),
+        },
+        syn::Expr::Binary(b) if matches!(b.op, syn::BinOp::Eq(_)) => {
+            if t == "c==quote_char" || t == "quote_char==c" {
+                Some(true)
+            } else if ["self.window[0]==Some(quote_char)", "self.window[1]==Some(quote_char)", "Some(quote_char)==self.window[0]", "Some(quote_char)==self.window[1]"].contains(&t.as_str()) {
+                Some(pair)
+            } else {
+                out.unknown = Some(t);
+                None
+            }
+        }
+        syn::Expr::Lit(l) => match &l.lit {
+            syn::Lit::Bool(b) => Some(b.value),
+            _ => {
+                out.unknown = Some(t);
+                None
+            }
+        },
+        syn::Expr::Path(_) if t == "triple_quoted" => {
+            if triple.is_none() {
+                out.unknown = Some("triple_quoted read before it is set".into());
+            }
+            triple
+        }
+        syn::Expr::Path(_) if out.locals.contains_key(&t) => out.locals.get(&t).copied(),
+        syn::Expr::If(i) => {
+            let c = q_bool(&i.cond, triple, pair, lx, out, depth)?;
+            if c {
+                q_stmts(&i.then_branch.stmts, triple, pair, lx, out, depth)
+            } else {
+                match &i.else_branch {
+                    Some((_, el)) => match &**el {
+                        syn::Expr::Block(b) => q_stmts(&b.block.stmts, triple, pair, lx, out, depth),
+                        other => q_bool(other, triple, pair, lx, out, depth),
+                    },
+                    None => None,
+                }
+            }
+        }
+        syn::Expr::Block(b) => q_stmts(&b.block.stmts, triple, pair, lx, out, depth),
+        // a private helper of the lexer taking the quote character: evaluated in place (one level)
+        syn::Expr::MethodCall(mc) if sm::tsc(&mc.receiver) == "self" && depth == 0 && mc.args.len() == 1 && sm::tsc(&mc.args[0]) == "quote_char" => match lr::lexer_method(lx, &mc.method.to_string()) {
+            Some(h) => {
+                // the helper's parameter stands for the quote character
+                let p = h.sig.inputs.iter().filter_map(|a| if let syn::FnArg::Typed(t) = a { Some(sm::tsc(&t.pat)) } else { None }).next().unwrap_or_default();
+                if p != "quote_char" {
+                    out.unknown = Some(format!("helper {} names its parameter `{}`", mc.method, p));
+                    return None;
+                }
+                let saved = std::mem::take(&mut out.locals);
+                let v = q_stmts(&h.block.stmts, None, pair, lx, out, depth + 1);
+                out.locals = saved;
+                v
+            }
+            None => {
+                out.unknown = Some(t);
+                None
+            }
+        },
+        _ => {
+            out.unknown = Some(t);
+            None
+        }
+    }
+}
+
+/// Runs statements; returns the value of a boolean tail expression, if there is one.
+fn q_stmts(stmts: &[syn::Stmt], triple: Option<bool>, pair: bool, lx: &Src, out: &mut QOut, depth: usize) -> Option<bool> {
+    for (i, st) in stmts.iter().enumerate() {
+        if out.broke || out.unknown.is_some() {
+            return None;
+        }
+        let last = i + 1 == stmts.len();
+        match st {
+            syn::Stmt::Local(l) => {
+                let (Some(init), syn::Pat::Ident(pi)) = (&l.init, &l.pat) else {
+                    out.unknown = Some(sm::tsc(st));
+                    return None;
+                };
+                let v = q_bool(&init.expr, triple, pair, lx, out, depth)?;
+                out.locals.insert(pi.ident.to_string(), v);
+            }
+            syn::Stmt::Expr(e, semi) => {
+                let t = sm::tsc(e);
+                if t == "self.next_char()" {
+                    out.consumed += 1;
+                } else if t == "break" {
+                    out.broke = true;
+                    return None;
+                } else if let syn::Expr::If(_) = e {
+                    let v = q_bool(e, triple, pair, lx, out, depth);
+                    if last && semi.is_none() {
+                        return v;
+                    }
+                    // an `if` without else that was not taken is not an error
+                    if out.unknown.is_some() {
+                        return None;
+                    }
+                } else if last && semi.is_none() {
+                    return q_bool(e, triple, pair, lx, out, depth);
+                } else {
+                    out.unknown = Some(t);
+                    return None;
+                }
+            }
+            _ => {
+                out.unknown = Some(sm::tsc(st));
+                return None;
+            }
+        }
+    }
+    None
+}
+
+fn quote_logic(cx: &mut Ctx, rule: &str, lx: &Src, f: &syn::ImplItemFn) {
+    // opening: `let triple_quoted = E;` — E is true iff two more quote characters follow, and consumes exactly them
+    let mut opening: Option<&syn::Expr> = None;
+    for st in &f.block.stmts {
+        if let syn::Stmt::Local(l) = st {
+            if sm::tsc(&l.pat) == "triple_quoted" {
+                opening = l.init.as_ref().map(|i| &*i.expr);
+            }
+        }
+    }
+    match opening {
+        None => cx.fail(rule, &format!("{}/triple-open", rule), &lx.loc(f), "lex_string has no `let triple_quoted = ..` (fail closed)"),
+        Some(e) => {
+            let mut bad = vec![];
+            for pair in [false, true] {
+                let mut out = QOut::default();
+                let v = q_bool(e, None, pair, lx, &mut out, 0);
+                let want_consumed = if pair { 2 } else { 0 };
+                if out.unknown.is_some() || v != Some(pair) || out.consumed != want_consumed {
+                    bad.push(format!("two more quotes follow = {}: triple_quoted = {:?}, {} character(s) consumed{}", pair, v, out.consumed, out.unknown.map(|u| format!(" (not evaluated: {})", u)).unwrap_or_default()));
+                }
+            }
+            if bad.is_empty() {
+                cx.ok(rule, "opening: two further quote characters <=> triple quoted, and exactly those two are consumed");
+            } else {
+                cx.fail(rule, &format!("{}/triple-open", rule), &lx.loc(f), &format!("triple-quote detection at the opening: {}", bad.join("; ")));
+            }
+        }
+    }
+    // closing: the statements of the scan loop's `Some(c)` arm that mention quote_char
+    let mut region: Vec<syn::Stmt> = vec![];
+    sm::for_each_expr_in_block(&f.block, |e| {
+        if let syn::Expr::Match(m) = e {
+            if sm::tsc(&m.expr) == "self.next_char()" && region.is_empty() {
+                for a in &m.arms {
+                    if sm::tsc(&a.pat) == "Some(c)" {
+                        if let syn::Expr::Block(b) = &*a.body {
+                            region = b.block.stmts.iter().filter(|s| sm::tsc(*s).contains("quote_char")).cloned().collect();
+                        }
+                    }
+                }
+            }
+        }
+    });
+    if region.is_empty() {
+        return cx.fail(rule, &format!("{}/triple-close", rule), &lx.loc(f), "the scan loop has no `Some(c)` arm with a closing-quote decision (fail closed)");
+    }
+    let mut bad = vec![];
+    for triple in [false, true] {
+        for pair in [false, true] {
+            let mut out = QOut::default();
+            let _ = q_stmts(&region, Some(triple), pair, lx, &mut out, 0);
+            let (want_broke, want_consumed) = match (triple, pair) {
+                (false, _) => (true, 0),
+                (true, true) => (true, 2),
+                (true, false) => (false, 0),
+            };
+            if out.unknown.is_some() || out.broke != want_broke || out.consumed != want_consumed {
+                bad.push(format!("triple_quoted = {}, two more quotes follow = {}: literal ends = {} after consuming {} more character(s){} (expected: ends = {}, {} consumed)", triple, pair, out.broke, out.consumed, out.unknown.map(|u| format!(" [not evaluated: {}]", u)).unwrap_or_default(), want_broke, want_consumed));
+            }
+        }
+    }
+    if bad.is_empty() {
+        cx.ok(rule, "closing, evaluated over (triple_quoted, two more quotes follow): a quote ends a plain literal and consumes nothing further; a triple-quoted one ends only with two more quote characters, which are consumed");
+    } else {
+        cx.fail(rule, &format!("{}/triple-close", rule), &lx.loc(f), &format!("the closing-quote logic: {}", bad.join("; ")));
     }
 }
 
